@@ -238,6 +238,9 @@ def main():
         and "best_seen_file.write_all(value.to_string().as_bytes()).await?;" in wb
         and "OpenOptions" not in wb) else "false"))
 
+    facts.append("Definition best_seen_write_awaited : bool := %s." % ("true" if
+        re.search(r"best_seen_file\.write_all\(value\.to_string\(\)\.as_bytes\(\)\)\.await\?;best_seen_file\.flush\(\)\.await\?;Ok\(\(\)\)$", wb) else "false"))
+
     dr = strip_comments(read_nontest("detailed_report.rs"))
     m = need(r'fn\s+get_csv_header_row\(\)\s*->\s*&\'static\s+str\s*\{\s*"([^"]*)"', dr, "CSV header")
     facts.append('Definition csv_header : string := "%s".' % m.group(1).replace("\\n", ""))
